@@ -340,6 +340,45 @@ pub fn bin_path(label: &str) -> String {
     }
 }
 
+/// Environment variables set for the subject programs (see `discovered_env_vars`).
+pub static EXTRA_ENV: std::sync::Mutex<Vec<(String, String)>> = std::sync::Mutex::new(Vec::new());
+
+/// Names of environment variables that the library source reads at run time (`var("X")`, `var_os("X")`): the
+/// checks are repeated with each of them set, since behaviour must not depend on the environment of the process.
+pub fn discovered_env_vars() -> Vec<String> {
+    fn walk(dir: &Path, out: &mut Vec<String>) {
+        let Ok(rd) = std::fs::read_dir(dir) else { return };
+        for e in rd.flatten() {
+            let p = e.path();
+            if p.is_dir() {
+                walk(&p, out);
+            } else if p.extension().map_or(false, |x| x == "rs") {
+                let Ok(src) = std::fs::read_to_string(&p) else { continue };
+                for key in ["var(", "var_os("] {
+                    let mut rest = src.as_str();
+                    while let Some(i) = rest.find(key) {
+                        rest = &rest[i + key.len()..];
+                        let t = rest.trim_start();
+                        if let Some(t) = t.strip_prefix('"') {
+                            if let Some(j) = t.find('"') {
+                                let name = &t[..j];
+                                if !name.is_empty() && name.chars().all(|c| c.is_ascii_alphanumeric() || c == '_') && !name.starts_with("CARGO") {
+                                    out.push(name.to_string());
+                                }
+                            }
+                        }
+                    }
+                }
+            }
+        }
+    }
+    let mut v = vec![];
+    walk(Path::new(&format!("{}/epserde/src", REPO)), &mut v);
+    v.sort();
+    v.dedup();
+    v
+}
+
 /// Compiler errors (per binary = universe label) of the last `prepare`.
 pub static LAST_ERRORS: std::sync::Mutex<std::collections::BTreeMap<String, Vec<String>>> = std::sync::Mutex::new(std::collections::BTreeMap::new());
 
@@ -378,6 +417,9 @@ fn run_once(label: &str, prop: &str, opts: &Opts, extra: &[String], capture: boo
     let mut c = Command::new(bin_path(label));
     if variant() == "-asan" {
         c.env("ASAN_OPTIONS", "abort_on_error=1:detect_leaks=0:allocator_may_return_null=0:print_summary=1");
+    }
+    for (k, v) in EXTRA_ENV.lock().unwrap().iter() {
+        c.env(k, v);
     }
     c.arg("--universe").arg(universe_json_path(label)).arg("--prop").arg(prop).arg("--tier").arg(&opts.tier).arg("--seed").arg(opts.seed.to_string()).arg("--out").arg(&out);
     c.arg("--known").arg(format!("{}/known_findings.json", crate::VERIF));
